@@ -662,3 +662,30 @@ contract("parsers:TimeRecurrenceParser.parse", use_at_calls=False, opaque=["dby"
          note="the three recurrence notations on symbolic texts: repetitions, start / second "
               "/ end point fields and interval components exactly as spelled")
 _REG["parsers:TimeRecurrenceParser.parse"].modes = ["gregorian"]
+
+
+# ---------------------------------------------------------------- custom complete formats (C08)
+CUSTOM_FORMATS = ["CCYY-MM-DDThh:mm:ss+hh:mm", "CCYYMMDDThhmmss+hhmm", "CCYY-DDDThh:mm:ss+hh:mm",
+                  "CCYYDDDThhmmss+hhmm", "CCYY-Www-DThh:mm:ss+hh:mm", "CCYYWwwDThhmmss+hhmm",
+                  "CCYY-MM-DDThh:mm:ssZ", "CCYYDDDThhmmssZ", "CCYY-Www-DThh:mm:ss+hh"]
+
+
+def _cf_cases():
+    from .shapes import mk_timepoint
+    out = []
+    for d in ("cal", "ord", "week"):
+        for fmt in CUSTOM_FORMATS:
+            def build(E, st, d=d, fmt=fmt):
+                p = mk_timepoint(E, st, "p", d, "hms", whole=True, ned=0)
+                return {"p": p, "dumper": mk_text_dumper(E, st, 0),
+                        "parser": mk_text_parser(E, st, x=0, assumed=None), "fmt": fmt}
+            req = ["normal24(p)", "1 <= p._year and p._year <= 9998"]
+            if fmt.endswith("+hh"):
+                req.append("p._time_zone._minutes == 0")   # the format prints hours only
+            out.append(Case("%s|%s" % (d, fmt), build, requires=req))
+    return out
+
+
+contract("ghost:dump_custom_format", use_at_calls=False, opaque=["dby"],
+         cases=_cf_cases(), check_frames=False)
+_REG["ghost:dump_custom_format"].modes = ["gregorian"]
